@@ -130,7 +130,7 @@ func classOf(b []byte, lookup []byte) string {
 	switch {
 	case len(b) == 0:
 		return "none"
-	case bytes.Equal(b, lookup):
+	case bytes.Equal(b, lookupMD): // the value called "L", whether it got there by substitution or is the entry's own
 		return "L"
 	case bytes.Equal(b, otherMD):
 		return "A"
@@ -211,13 +211,7 @@ func judge(tc *tcase, ob observed) (string, bool) {
 			return "result-mismatch", false
 		}
 		for i, e := range tc.Out.Res {
-			want := expectClass(e.MD)
-			if e.MD == "L" {
-				want = lk
-				if tc.L == "L" {
-					want = "L"
-				}
-			}
+			want := expectClass(e.MD) // the model's output names values: a substituted looked-up value appears under its own name
 			if ob.Res[i].ID != e.ID || ob.Res[i].MD != want {
 				return "result-mismatch", false
 			}
@@ -225,9 +219,6 @@ func judge(tc *tcase, ob observed) (string, bool) {
 	case "nopanic":
 		if ob.Err == "" && len(ob.Res) > 0 {
 			want := lk
-			if tc.L == "L" {
-				want = "L"
-			}
 			if ob.Res[0].ID != "m" || ob.Res[0].MD != want {
 				return "result-mismatch", false
 			}
